@@ -29,6 +29,7 @@ fn put_pkt(t: &mut Toks, r: Option<Result<LldpPacket, ParseError>>) {
             let wires = catch(|| {
                 let s = format!("{} {:?}", p, p);
                 log::info!("lldp: {}", s);
+                log_like_run(&p);
                 p.tlvs.iter().map(|x| x.to_wire()).collect::<Result<Vec<_>, _>>()
             });
             match wires {
@@ -42,6 +43,31 @@ fn put_pkt(t: &mut Toks, r: Option<Result<LldpPacket, ParseError>>) {
                     t.n(2);
                 }
             }
+        }
+    }
+}
+
+/// the formatting the body of `LldpService::run` applies to a newly seen packet (the loop itself
+/// needs a RawSocket message, so its log statements are repeated here on the decoded packet)
+fn log_like_run(p: &LldpPacket) {
+    use erbium::lldp::lldppkt::{ChassisId, ChassisIdType, PortId};
+    for i in &p.tlvs {
+        match i {
+            LldpTlv::ChassisID(ChassisId { r#type: ChassisIdType::MacAddress, identifier })
+            | LldpTlv::ChassisID(ChassisId { r#type: ChassisIdType::NetworkAddress, identifier }) => log::info!(
+                "Peer Device Address: {:?}",
+                identifier.iter().map(|o| format!("{:0>2x}", o)).collect::<Vec<_>>().join(":")
+            ),
+            LldpTlv::ChassisID(ChassisId { r#type: ChassisIdType::ChassisComponent, identifier }) => {
+                log::info!("Peer Chassis Component: {:?}", identifier)
+            }
+            LldpTlv::ChassisID(ChassisId { identifier, .. }) => {
+                log::info!("Peer Name: {}", String::from_utf8_lossy(identifier))
+            }
+            LldpTlv::PortID(PortId { r#type: ty, identifier }) => {
+                log::info!("Peer Port {:?}: {}", ty, String::from_utf8_lossy(identifier))
+            }
+            other => log::info!("Peer Attribute: {:?}", other),
         }
     }
 }
@@ -348,6 +374,42 @@ pub fn run(args: &Args, out: &mut dyn Write) -> Stats {
             let mut tlv = vec![ty << 1, len as u8];
             tlv.extend((0..len).map(|i| [2u8, 0, 1, 65, 0xc3, 0xa9, 7][i]));
             emit(out, case_tlv(&tlv));
+        }
+    }
+    if args.tier == "thorough" {
+        // management address TLV: every address-length octet x every number of octets behind it
+        for alen in 0..=255u8 {
+            for real in 0..=44usize {
+                st.bump("lldp.sys.mgmt2");
+                let mut tlv = vec![16u8, (2 + real) as u8, alen, 1];
+                tlv.extend((0..real).map(|i| (i % 7) as u8));
+                emit(out, case_tlv(&tlv));
+            }
+        }
+        // every TLV type x payload lengths 0..9 x fill octets
+        for ty in 0..=127u8 {
+            for len in 0..=9usize {
+                for fill in [0u8, 1, 7, 0x41, 0x80, 0xc3, 0xff] {
+                    st.bump("lldp.sys.tlv2");
+                    let mut tlv = vec![(ty << 1) | (fill & 1), len as u8];
+                    tlv.extend(std::iter::repeat(fill).take(len));
+                    tlv.extend([0, 0]);
+                    emit(out, case_pdu(&tlv));
+                }
+            }
+        }
+        // every pair (TLV whose length is changed, new length) x truncation of the result
+        for seed in seeds() {
+            for o in tlv_offsets(&seed) {
+                for v in [0u8, 1, 2, 3, 4, 5, 127, 128, 254, 255] {
+                    let mut m = seed.clone();
+                    m[o + 1] = v;
+                    for k in (0..=m.len()).step_by(3) {
+                        st.bump("lldp.sys.length-x-truncate");
+                        emit(out, case_frame(&framed(&m[..k])));
+                    }
+                }
+            }
         }
     }
     // -- random part
